@@ -233,9 +233,19 @@ class Grammar:
                 if p.peek()[0] == "arrow":
                     p.next()
                     cmd = p.next()
-                    if cmd != ("id", "skip"):
+                    if cmd == ("id", "skip"):
+                        skip = True
+                    elif cmd == ("id", "channel"):
+                        # -> channel(HIDDEN) / channel(1): the token is produced, off the default channel
+                        rest_ = []
+                        while p.peek()[0] != "eof":
+                            rest_.append(p.next())
+                        txt = "".join(str(t[1]) if len(t) > 1 else str(t[0]) for t in rest_)
+                        if txt.replace(" ", "") not in ("(HIDDEN)", "(1)"):
+                            raise GrammarError("unsupported lexer channel %r" % (rest_,))
+                        skip = "hidden"
+                    else:
                         raise GrammarError("unsupported lexer command %r" % (cmd,))
-                    skip = True
                 if p.peek()[0] != "eof":
                     raise GrammarError("trailing tokens in rule %s" % name)
                 self.lexer_rules.append((name, ast, fragment, skip))
@@ -247,7 +257,8 @@ class Grammar:
                 self.parser_rules.append((name, ast, p.labels))
         self.token_names = [n for n, _, frag, _ in self.lexer_rules if not frag]
         self.token_type = {n: i + 1 for i, n in enumerate(self.token_names)}
-        self.skipped = {n for n, _, frag, sk in self.lexer_rules if sk}
+        self.skipped = {n for n, _, frag, sk in self.lexer_rules if sk is True}
+        self.hidden = {n for n, _, frag, sk in self.lexer_rules if sk == "hidden"}
         self.rule_names = [n for n, _, _ in self.parser_rules]
         # literal text of tokens defined as one plain literal (for literalNames)
         self.literal = {}
